@@ -29,9 +29,11 @@ try:
     KNOWN = {k: set(v['functions']) for k, v in _raw.items()}
     KNOWN_NAMES = {k: set(v['names']) for k, v in _raw.items()}
     KNOWN_FP = {k: v.get('fingerprints', {}) for k, v in _raw.items()}
+    KNOWN_LOCALS = {k: v.get('locals', {}) for k, v in _raw.items()}
 except FileNotFoundError:  # inventory not generated: the pass is off
     KNOWN = KNOWN_NAMES = None
     KNOWN_FP = {}
+    KNOWN_LOCALS = {}
 
 PURE_BUILTINS = {'len', 'tuple', 'list', 'set', 'frozenset', 'dict', 'sorted', 'min', 'max', 'sum', 'abs', 'int', 'bool', 'str', 'range',
                  'enumerate', 'zip', 'reversed', 'isinstance', 'any', 'all', 'divmod', 'float', 'bytes', 'repr', 'hash', 'id', 'type', 'iter'}
@@ -1006,6 +1008,105 @@ def _similarity(a, b):
     return inter / union if union else 0.0
 
 
+def _shape(e):
+    """coarse, name-free description of an expression (what a variable is bound to / iterated from)"""
+    if isinstance(e, ast.Call):
+        f = e.func
+        return 'Call:' + (f.id if isinstance(f, ast.Name) else f.attr if isinstance(f, ast.Attribute) else '?')
+    if isinstance(e, ast.Attribute):
+        return 'Attr:' + e.attr
+    if isinstance(e, ast.Subscript):
+        return 'Sub:' + _shape(e.value)
+    if isinstance(e, ast.Constant):
+        return 'Const:' + repr(e.value)[:12]
+    return type(e).__name__
+
+
+def local_fingerprints(fn):
+    """{local name: multiset of the syntactic contexts it occurs in} for the names bound in the function's own scope (not parameters)"""
+    params = {a.arg for a in ast.walk(fn.args) if isinstance(a, ast.arg)}
+    parents = {}
+    for p_ in walk_scope(fn):
+        for field, value in ast.iter_fields(p_):
+            for v in (value if isinstance(value, list) else [value]):
+                if isinstance(v, ast.AST):
+                    parents[id(v)] = (p_, field)
+    for field, value in ast.iter_fields(fn):
+        for v in (value if isinstance(value, list) else [value]):
+            if isinstance(v, ast.AST):
+                parents[id(v)] = (fn, field)
+    bound = {n.id for n in walk_scope(fn) if isinstance(n, ast.Name) and not isinstance(n.ctx, ast.Load)} - params
+    out = {b: {} for b in bound}
+    for n in walk_scope(fn):
+        if not (isinstance(n, ast.Name) and n.id in bound):
+            continue
+        par, field = parents.get(id(n), (None, '?'))
+        tok = f'{type(n.ctx).__name__[0]}:{type(par).__name__}.{field}'
+        if isinstance(par, ast.Attribute):
+            tok += ':' + par.attr
+            gp = parents.get(id(par), (None, ''))
+            if isinstance(gp[0], ast.Call) and gp[1] == 'func':
+                tok += '()'
+        elif isinstance(par, ast.Compare):
+            tok += ':' + '/'.join(type(o).__name__ for o in par.ops)
+        elif isinstance(par, (ast.AugAssign, ast.BinOp)):
+            tok += ':' + type(par.op).__name__
+        elif isinstance(par, ast.Call) and field == 'args':
+            f = par.func
+            tok += ':' + (f.id if isinstance(f, ast.Name) else f.attr if isinstance(f, ast.Attribute) else '?')
+        # what the name is bound to
+        stmt, fld = par, field
+        hops = 0
+        while stmt is not None and not isinstance(stmt, (ast.stmt, ast.comprehension, ast.NamedExpr)) and hops < 4:
+            stmt, fld = parents.get(id(stmt), (None, ''))
+            hops += 1
+        if not isinstance(n.ctx, ast.Load):
+            if isinstance(stmt, ast.Assign):
+                tok += '=' + _shape(stmt.value)
+            elif isinstance(stmt, (ast.For, ast.comprehension)):
+                tok += ' in ' + _shape(stmt.iter)
+            elif isinstance(stmt, ast.NamedExpr):
+                tok += ':=' + _shape(stmt.value)
+        d = out[n.id]
+        d[tok] = d.get(tok, 0) + 1
+    return out
+
+
+def undo_local_renames(tree, modname):
+    """a local variable of a known function that disappeared while a new local with (nearly) the same usage pattern appeared was renamed: rename it back
+    inside that function. A consistent renaming never changes behaviour (the old name is checked to be unused in the function), so a wrong guess can
+    only make a rule fail to recognise its construct, never hide a change."""
+    inv = KNOWN_LOCALS.get(modname)
+    if not inv:
+        return []
+    done = []
+    for q, fn in scoped_functions(tree):
+        old = inv.get(q)
+        if not old:
+            continue
+        cur = local_fingerprints(fn)
+        all_names = {n.id for n in ast.walk(fn) if isinstance(n, ast.Name)} | {a.arg for a in ast.walk(fn.args) if isinstance(a, ast.arg)}
+        missing = [o for o in old if o not in all_names]
+        fresh = [c for c in cur if c not in old]
+        if not missing or not fresh:
+            continue
+        pairs = sorted(((_similarity(old[o], cur[c]), o, c) for o in missing for c in fresh), reverse=True)
+        used_o, used_c = set(), set()
+        for sim, o, c in pairs:
+            if o in used_o or c in used_c or sim < 0.5:
+                continue
+            rival = max([s_ for s_, o2, c2 in pairs if (o2 == o) != (c2 == c) and o2 not in used_o and c2 not in used_c] or [0.0])
+            if rival > sim - 0.08 and rival >= 0.5:
+                continue  # ambiguous
+            used_o.add(o)
+            used_c.add(c)
+            for n in ast.walk(fn):
+                if isinstance(n, ast.Name) and n.id == c:
+                    n.id = o
+            done.append(f'{q}:{c}->{o}')
+    return done
+
+
 def undo_private_renames(tree, modname):
     """a PRIVATE function / method of the confirmed tree that is gone while a new one with (nearly) the same body appeared in the same scope was renamed:
     give it its old name back, in the definition and in every reference inside this module, so that the rules find their anchor. Only names that
@@ -1060,6 +1161,7 @@ def normalise_module(tree, modname, known=None):
     done = []
     if known_names is not None:
         done.extend(undo_private_renames(tree, modname))
+        done.extend(undo_local_renames(tree, modname))
         tables = new_tables(tree, known_names)
         if tables:
             t = _Tables(tables)
